@@ -279,6 +279,10 @@ func VH_C11_relay_survives_reload() {
 	verifAssert("C11.relay.status-ok", len(m.closed) == 1 && m.closed[0] == "OK")
 	verifAssert("C11.relay.client-data-intact", len(target.written) == 5 && verifBytesEq(target.written, append(append([]byte{}, d1...), d2...)))
 	verifAssert("C11.relay.no-deadline-after-header", len(conn.deadlines) == 2 && conn.deadlines[1].IsZero() && len(target.deadlines) == 0)
+	// the same, as C02 states it: the target receives exactly what the client sent, and nothing
+	// arms a deadline on an established relay
+	verifAssert("C02.relay-across-listener-close.client-data-intact", len(target.written) == 5 && verifBytesEq(target.written, append(append([]byte{}, d1...), d2...)))
+	verifAssert("C02.relay-across-listener-close.no-deadline-on-the-relay", len(conn.deadlines) == 2 && conn.deadlines[1].IsZero())
 	verifReach("C11.relay.done", true)
 }
 
